@@ -892,6 +892,34 @@ class SRow(tuple):
         return self._rec.dt
 
 
+class Rec0d:
+    """what numpy.genfromtxt returns for a file with a single data row: a 0-d structured array. It cannot be iterated or
+    measured; numpy.atleast_1d turns it into the one-row table."""
+    def __init__(self, rec):
+        self._rec = rec
+
+    @property
+    def ndim(self): return 0
+    @property
+    def shape(self): return ()
+    @property
+    def dtype(self): return self._rec.dt
+
+    def __iter__(self):
+        raise TypeError('iteration over a 0-d array')
+
+    def __len__(self):
+        raise TypeError('len() of unsized object')
+
+    def __getitem__(self, k):
+        if isinstance(k, str):
+            return self._rec.cols[k][0]
+        raise IndexError('too many indices for array: array is 0-dimensional')
+
+    def copy(self):
+        return Rec0d(self._rec.copy())
+
+
 class _OpaqueField:
     """marker base for opaque field payloads (row tags, placeholder strings)"""
 
@@ -1047,7 +1075,7 @@ def loadtxt(fname, *a, **k):
 def genfromtxt(fname, *a, **k):
     if isinstance(fname, str) and fname in VMATRIX:
         m = VMATRIX[fname]
-        return m.copy() if isinstance(m, (SArr, SRec)) else asarray(m)
+        return m.copy() if isinstance(m, (SArr, SRec, Rec0d)) else asarray(m)
     return delegate(rnp.genfromtxt, fname, *a, **k)
 
 
@@ -1147,6 +1175,15 @@ def array(x, dtype=None, copy=True, **kw):
 
 
 asanyarray = asarray
+
+
+def atleast_1d(x):
+    if isinstance(x, Rec0d):
+        return x._rec
+    if isinstance(x, SRec):
+        return x
+    a = asarray(x)
+    return a if a.ndim >= 1 else a.reshape(1)
 
 
 def ascontiguousarray(x, dtype=None):
